@@ -71,7 +71,8 @@ def concretise(ob, model):
     decls += ["int a[0x1p3];", "enum e { A = 0x1.p3 };", "struct s { int a:0X1P2; };", "int a[0x.8p1];", "int a[1.5e3];",
               "#define X 08\n", "#define X abc\n", "#define X 0xg\n", "static const int X = 09;"]
     # initializers of every shape after a unary operator (Parser._parse_decl)
-    decls += ["struct ...;", "struct ... { int a; };", "union ... *p;", "enum ... { A };", "typedef struct ... *p_t;"]
+    decls += ["struct ...;", "struct ... { int a; };", "union ... *p;", "enum ... { A };", "typedef struct ... *p_t;",
+              "char typedef ...;", "typedef ... ...;", "typedef struct s ...;"]
     decls += ["#define B 5\nstatic const int K = -B;", "static const int K = -(1 + 2);", "static const int K = - -5;",
               "static const int K = -+5;", "static const int K = -sizeof(int);", "static const int K = -(int)5;",
               "int v = -w;", "static const int K = ~5;", "static const int K = -'a';", "static const long K = -0x10;",
@@ -119,6 +120,7 @@ def main(tier, seed):
                  "args None for an empty text, a Typename, an unknown ID; with and without '#define's -- and the refusal "
                  "of a bare '...' in _get_type_and_quals for a node with and without source coordinates: these shapes are "
                  "ASSUMED of pycparser (observed on the installed version, each replayed by the text that produces it)",
+                 "Parser._declare on names made with '...' (whatever caller builds them)",
                  "Parser._get_struct_union_enum_type, the block that creates a new struct / union / enum type, for a name and "
                  "for '...' as the tag, with the real Parser._declare (and its assert) running inside",
                  "compiled FFIs: _ffi_type (ffi_obj.c), the entry of ffi.typeof(string) & co.: a ctype or NULL with an exception "
